@@ -94,7 +94,7 @@ def snapshots(commands, global_decls=False):
 DEFAULTS = dict(ncmds=(8, 26), p_push=0.12, p_pop=0.10, p_check=0.22, named=0.0, nested_named=0.0, defines=0.0,
                 queries=(), q_prob=0.7, unsat_bias=0.3, all_named=False, max_live=14, max_depth=3, big=0.15, max_push=4,
                 reassert=0.12, value_terms=True, final_check=True, clausal=0.35, bool_args=True, allow_let=True, reenter=0.25, horn=0.3, hard3=0.25,
-                uf_heavy=0.4, dl_dense=0.5, la_dense=0.3, ax_dense=0.5, uf_dense=0.4, term_reuse=True, subst=0.04, nconsts=None)
+                uf_heavy=0.4, dl_dense=0.5, la_dense=0.3, ax_dense=0.5, uf_dense=0.4, term_reuse=True, subst=0.04, nconsts=None, xnames=0.125)
 
 
 class HistGen:
@@ -118,7 +118,7 @@ class HistGen:
         pp0 = gen.PROFILES[prof]
         self.uf_dense = False
         self.la_dense = bool(pp0['nums']) and not pp0['dl'] and self.o['clausal'] > 0 and rng.random() < self.o['la_dense']
-        self.sig = gen.make_signature(rng, prof, self.o['bool_args'], nconsts=self.o['nconsts'] or ((5, 8) if self.horn else ((4, 6) if self.dl_dense else ((3, 4) if self.la_dense else (2, 4)))))
+        self.sig = gen.make_signature(rng, prof, self.o['bool_args'], xnames=self.o['xnames'], nconsts=self.o['nconsts'] or ((5, 8) if self.horn else ((4, 6) if self.dl_dense else ((3, 4) if self.la_dense else (2, 4)))))
         # "uf-dense" mode: decided after the signature is known (needs a function U x .. x U -> U)
         if pp0['uf'] and not pp0['arrays'] and self.o['clausal'] > 0 and any(f[2] in self.sig.sorts and all(a == f[2] for a in f[1]) for f in self.sig.funs):
             self.uf_dense = rng.random() < self.o['uf_dense'] and not (self.la_dense or self.dl_dense)
@@ -274,9 +274,46 @@ class HistGen:
         if self.sig.sorts:
             kinds += ['trans']
         kinds += ['sat4', 'chain']
+        if p['nums'] and not p['dl'] and max(len(self.sig.consts[x]) for x in p['nums']) >= 5:
+            kinds += ['farkas', 'farkas']
         if p['nums'] and not p['dl'] and any(f[2] != 'Bool' and len(f[1]) == 1 and f[1][0] in p['nums'] for f in self.sig.funs):
             kinds += ['iface', 'iface']
         k = r.choice(kinds)
+        if k == 'farkas':
+            # a linear system that is infeasible by one Farkas combination with non-unit multipliers: rows
+            # sum_j a_ij * u_j + s_i >= 0 over two or three "local" variables u_j and one own variable s_i each, multipliers
+            # lambda_i > 0 chosen so that the u_j cancel, and the row sum_i lambda_i * s_i <= -1. Every row is its own
+            # assertion, so interpolation splits fall between rows: the locals of one side must be eliminated by a
+            # (decomposed) Farkas combination, and the conflict certificate has to carry exactly the lambdas.
+            sort = max(p['nums'], key=lambda x: len(self.sig.consts[x]))
+            vs = list(self.sig.consts[sort])
+            r.shuffle(vs)
+            nloc = 2 if len(vs) < 7 else r.choice([2, 3])
+            m = min(len(vs) - nloc, r.randint(3, 5))
+            loc, sh = vs[:nloc], vs[nloc:nloc + m]
+            lam = [r.randint(1, 3) for _ in range(m - 1)] + [1]
+            a = [[r.randint(-3, 3) for _ in range(nloc)] for _ in range(m - 1)]
+            a.append([-sum(lam[i] * a[i][j] for i in range(m - 1)) for j in range(nloc)])
+
+            def lin(coefs, names):
+                ts = []
+                for c, n in zip(coefs, names):
+                    if c == 0:
+                        continue
+                    v = T('var', sort, val=n)
+                    ts.append(v if c == 1 else T('app', sort, head='*', args=[T('num', sort, val=Fraction(c)), v]))
+                return ts
+            out = []
+            for i in range(m):
+                ts = lin(a[i], loc) + [T('var', sort, val=sh[i])]
+                lhs = ts[0] if len(ts) == 1 else T('app', sort, head='+', args=ts)
+                out.append(T('app', 'Bool', head='>=', args=[lhs, T('num', sort, val=Fraction(0))]))
+            ts = lin(lam, sh)
+            lhs = ts[0] if len(ts) == 1 else T('app', sort, head='+', args=ts)
+            out.append(T('app', 'Bool', head='<=', args=[lhs, T('num', sort, val=Fraction(-1))]))
+            if r.random() < 0.5:
+                r.shuffle(out)
+            return out
         if k == 'chain':
             # an implied unit (a follows from (a or b), (a or not b) only by a conflict), a clause that passes it on (not a or c)
             # and its refutation (not c), spread over assertion levels: the refutation runs through level guards and through a
